@@ -81,12 +81,12 @@ def check_chen(cfg, queries, size, levy, rnd, entropy=99, n_triples=8, wrapper="
     sub = cfg.Sub
     if wrapper == "interval":
         ask = _ask_fn(bm, levy)
-        tq = [(a / sub, b / sub) for a, b in queries]
-        pts = [p / sub for p in sorted(set(rounded_points(cfg, queries)) | {0, cfg.round(cfg.T)})]
+        tq = [(cfg.t(a), cfg.t(b)) for a, b in queries]
+        pts = [cfg.t(p) for p in sorted(set(rounded_points(cfg, queries)) | {0, cfg.round(cfg.T)})]
     elif wrapper == "reverse":
         ask = _ask_fn(ReverseBrownian(bm), levy)
-        tq = [(-(b / sub), -(a / sub)) for a, b in queries]
-        pts = sorted(-(p / sub) for p in set(rounded_points(cfg, queries)) | {0, cfg.round(cfg.T)})
+        tq = [(-cfg.t(b), -cfg.t(a)) for a, b in queries]
+        pts = sorted(-cfg.t(p) for p in set(rounded_points(cfg, queries)) | {0, cfg.round(cfg.T)})
     else:
         raise ValueError(wrapper)
     span = float(cfg.N)
@@ -145,7 +145,7 @@ def check_chen_pieces(cfg, queries, size, levy, entropy=99, ulps=512):
                     continue
                 parts = []
                 for (s, e) in r["pieces"]:
-                    Wp, _, Ap = B.call(bm, s, e, cfg.Sub, levy)
+                    Wp, _, Ap = B.call(bm, s, e, cfg, levy)
                     parts.append((Wp, Ap))
                 Wc, Ac = chen_fold(parts)
                 if not _close(r["A"], Ac, ulps, _scale(r["A"], Ac) * max(1.0, cfg.N)):
@@ -218,7 +218,7 @@ def check_repeat(cfg, queries, size, levy, rnd, entropy=31, interleave=True):
         warnings.simplefilter("ignore")
         try:
             for k, (a, b) in enumerate(queries):
-                ans = B.call(bm, a, b, cfg.Sub, levy)
+                ans = B.call(bm, a, b, cfg, levy)
                 if (a, b) in first:
                     if not all(_eq(x, y) for x, y in zip(first[(a, b)], ans)):
                         fails.append(("repeat", dict(q=[a, b], at=k, phase="history")))
@@ -228,11 +228,11 @@ def check_repeat(cfg, queries, size, levy, rnd, entropy=31, interleave=True):
                 if interleave:
                     # re-ask one earlier query after this one
                     qa = order[rnd.randrange(len(order))]
-                    ans2 = B.call(bm, qa[0], qa[1], cfg.Sub, levy)
+                    ans2 = B.call(bm, qa[0], qa[1], cfg, levy)
                     if not all(_eq(x, y) for x, y in zip(first[qa], ans2)):
                         fails.append(("repeat", dict(q=list(qa), after=[a, b], at=k, phase="interleave")))
             for qa in reversed(order):
-                ans2 = B.call(bm, qa[0], qa[1], cfg.Sub, levy)
+                ans2 = B.call(bm, qa[0], qa[1], cfg, levy)
                 if not all(_eq(x, y) for x, y in zip(first[qa], ans2)):
                     fails.append(("repeat", dict(q=list(qa), phase="final")))
         except Exception as e:  # noqa: BLE001
@@ -252,8 +252,8 @@ def check_same_history(cfg, queries, size, levy, entropy=77):
         warnings.simplefilter("ignore")
         try:
             for k, (a, b) in enumerate(queries):
-                x = B.call(b1, a, b, cfg.Sub, levy)
-                y = B.call(b2, a, b, cfg.Sub, levy)
+                x = B.call(b1, a, b, cfg, levy)
+                y = B.call(b2, a, b, cfg, levy)
                 if not all(_eq(p, q) for p, q in zip(x, y)):
                     fails.append(("same_history", dict(q=[a, b], at=k)))
         except Exception as e:  # noqa: BLE001
@@ -270,12 +270,12 @@ def check_order_independence(cfg, hist1, hist2, probes, size, levy, entropy=55):
         warnings.simplefilter("ignore")
         try:
             for a, b in hist1:
-                B.call(b1, a, b, cfg.Sub, levy)
+                B.call(b1, a, b, cfg, levy)
             for a, b in hist2:
-                B.call(b2, a, b, cfg.Sub, levy)
+                B.call(b2, a, b, cfg, levy)
             for a, b in probes:
-                x = B.call(b1, a, b, cfg.Sub, levy)
-                y = B.call(b2, a, b, cfg.Sub, levy)
+                x = B.call(b1, a, b, cfg, levy)
+                y = B.call(b2, a, b, cfg, levy)
                 # the Levy-area approximation of a query spanning several stored pieces is a Chen
                 # combination of per-piece samples; in dyadic mode the pieces are canonical too
                 if not all(_eq(p, q) for p, q in zip(x, y)):
@@ -428,10 +428,10 @@ def check_law(cfg, queries, probes, covtab, levy, supplied="none", K=160, tol=2e
         try:
             bm = B.make_real(cfg, size=(K,), levy=levy, entropy=5, **kw)
             for a, b in queries:
-                B.call(bm, a, b, sub, levy)
+                B.call(bm, a, b, cfg, levy)
             vecs = {}
             for q in seen:
-                W, U, _ = B.call(bm, q[0], q[1], sub, levy)
+                W, U, _ = B.call(bm, q[0], q[1], cfg, levy)
                 vecs[q] = (W, U)
         except Exception as e:  # noqa: BLE001
             return [("exception", dict(exc=type(e).__name__, msg=str(e)[:200]))]
@@ -506,8 +506,8 @@ def check_supplied_exact(cfg, queries, levy, size=(3,), supply_H=True):
         try:
             bm = B.make_real(cfg, levy=levy, entropy=8, W=W, H=H)
             for a, b in queries:
-                B.call(bm, a, b, cfg.Sub, levy)
-            Wq, Uq, _ = B.call(bm, 0, cfg.T, cfg.Sub, levy)
+                B.call(bm, a, b, cfg, levy)
+            Wq, Uq, _ = B.call(bm, 0, cfg.T, cfg, levy)
             if not torch.equal(Wq, W):
                 fails.append(("supplied_W", dict(err=float((Wq - W).abs().max()))))
             if Uq is not None and H is not None:
@@ -623,7 +623,7 @@ def check_element_independence(cfg, queries, size, levy, entropy=9):
                 bm = B.make_real(cfg, size=size, levy=levy, entropy=entropy)
                 outs = []
                 for a, b in queries:
-                    outs.append(B.call(bm, a, b, cfg.Sub, levy))
+                    outs.append(B.call(bm, a, b, cfg, levy))
                 return outs
         finally:
             _bi._randn = orig
